@@ -79,6 +79,10 @@ StmtFaults == {
   <<"redeclare-nil", "explicit-nil", <<SVar("u", Lit(VNil)), T("declared"), SVar("u", Num(5))>> \o After>>,
   <<"redeclare-nil", "nil-from-call", <<SFun("nothing", <<>>, <<>>), SVar("u", Call(Id("nothing"), <<>>)), SVar("u", None)>> \o After>>,
   <<"redeclare-nil", "param", <<SFun("h", <<"p">>, <<SVar("p", Num(2))>> \o After), SExpr(Call(Id("h"), <<Lit(VNil)>>))>> \o After>>,
+  <<"zero", "object-two-faults", <<SVar("no", Obj(<<"a", "b", "c">>, <<Num(1), Bin("/", Num(1), Num(0)), Id("zz")>>))>> \o After>>,
+  <<"undef", "object-two-faults-rev", <<SVar("no", Obj(<<"z", "y", "a">>, <<Id("zz"), Bin("/", Num(1), Num(0)), Bin("-", Num(1), Lit(VNil))>>))>> \o After>>,
+  <<"operand", "array-two-faults", <<SVar("na", Arr(<<Bin("-", Num(1), Lit(VNil)), Id("zz")>>))>> \o After>>,
+  <<"zero", "args-two-faults", <<SPrint(Call(Id("two"), <<Bin("%", Num(1), Num(0)), Id("zz")>>))>> \o After>>,
   <<"stray-break", "top", <<SBreak>> \o After>>, <<"stray-continue", "top", <<SContinue>> \o After>>, <<"stray-return", "top", <<SReturn(Num(1))>> \o After>>,
   <<"stray-break", "block", <<SBlock(<<T("b"), SBreak>> \o After)>> \o After>>,
   <<"stray-continue", "if-arm", <<SIf(Num(1), SBlock(<<SContinue>> \o After), None)>> \o After>>,
